@@ -1,6 +1,7 @@
 package c13
 
 import (
+	"encoding/hex"
 	"fmt"
 	"strings"
 
@@ -14,9 +15,22 @@ import (
 // two calls ever share storage.
 
 type NodeErr struct {
-	Name string `json:"name"` // package of the failed requirement
+	Name string `json:"name"` // package of the failed requirement ("hex:…" = these bytes, for names that are not valid UTF-8)
 	Ver  string `json:"ver"`  // requirement string
 	Msg  string `json:"msg"`
+	// Concrete makes the key of the failed requirement a Concrete one (the
+	// usual kind is Requirement): same package and text, another VersionType.
+	Concrete bool `json:"concrete,omitempty"`
+}
+
+// rawName decodes the "hex:" spelling of a name.
+func rawName(n string) string {
+	if h, ok := strings.CutPrefix(n, "hex:"); ok {
+		if b, err := hex.DecodeString(h); err == nil {
+			return string(b)
+		}
+	}
+	return n
 }
 
 type Node struct {
@@ -140,9 +154,13 @@ func nodeKey(n *Node) resolve.VersionKey {
 }
 
 func errKey(e *NodeErr) resolve.VersionKey {
+	vt := resolve.Requirement
+	if e.Concrete {
+		vt = resolve.Concrete
+	}
 	return resolve.VersionKey{
-		PackageKey:  resolve.PackageKey{System: resolve.NPM, Name: e.Name},
-		VersionType: resolve.Requirement,
+		PackageKey:  resolve.PackageKey{System: resolve.NPM, Name: rawName(e.Name)},
+		VersionType: vt,
 		Version:     e.Ver,
 	}
 }
@@ -317,7 +335,8 @@ func fpSpec(s *Graph, nh []uint64) fingerprint {
 		var es uint64
 		for j := range n.Errs {
 			e := &n.Errs[j]
-			es += hashErr(hashVK(uint64(resolve.NPM), e.Name, uint64(resolve.Requirement), e.Ver), e.Msg)
+			k := errKey(e)
+			es += hashErr(hashVK(uint64(k.System), k.Name, uint64(k.VersionType), k.Version), e.Msg)
 		}
 		nh[i] = hashNode(hashVK(uint64(resolve.NPM), n.Name, uint64(resolve.Concrete), n.Ver), es, len(n.Errs))
 		f.nodes += mix(nh[i])
